@@ -512,6 +512,32 @@ def data_deps(fn, local, stop_call=None):
     return seen, call_roots, places
 
 
+def deep_deps(db, fn, local, depth=3, _seen=None):
+    """Backward data dependence of `local` that also descends into the *return value* of workspace callees
+    (helpers may be inlined or extracted freely). Returns (callee names, field names)."""
+    _seen = _seen if _seen is not None else set()
+    names, fields = set(), set()
+    locs, cr, places = data_deps(fn, local)
+    for pl in places:
+        for e in pl["p"]:
+            if isinstance(e, list) and e[0] == "f":
+                fields.add(e[2])
+    for bb, t in cr:
+        names.add(t.get("rfn") or t.get("fn") or "")
+        if t.get("fn"):
+            names.add(t["fn"])
+        if depth > 0:
+            for g in db.callee_fns(t, expand_traits=False):
+                g = db.body_of(g)
+                if g.id in _seen:
+                    continue
+                _seen.add(g.id)
+                n2, f2 = deep_deps(db, g, 0, depth - 1, _seen)
+                names |= n2
+                fields |= f2
+    return names, fields
+
+
 def taint_forward(fn, sources, sanitiser=None):
     """Forward data dependence from source locals: every local computed (through any rvalue or
     call) from a tainted one. `sanitiser(term)` -> True stops propagation through that call."""
